@@ -71,6 +71,41 @@ def verify(sid, prop, src):
     return res['confirmed']
 
 
+def run_copy(sid, checks, tier='quick'):
+    """like run, but on a patched copy of /repo (VERIF_REPO): /repo itself is not touched, so several can run at once"""
+    dst = os.path.join(VERIF, 'seeded', sid)
+    meta = json.load(open(os.path.join(dst, 'meta.json')))
+    if not checks:
+        checks = [meta['breaks_property']]
+    cp = '/tmp/seedrepo/' + sid
+    sh('rm -rf %s; mkdir -p %s' % (cp, cp))
+    rc, out = sh('git -C /repo archive HEAD | tar -x -C %s' % cp)
+    assert rc == 0, out
+    rc, out = sh('patch -p1 -s -d %s < %s' % (cp, os.path.join(dst, 'patch.diff')))
+    assert rc == 0, out
+    env = dict(os.environ, VERIF_REPO=cp)
+    try:
+        for c in checks:
+            t0 = time.time()
+            rc, out = sh('./check %s --tier %s 2>&1' % (c, tier), cwd=VERIF, env=env, timeout=14400)
+            record(meta, c, rc, out, t0, tier)
+    finally:
+        sh('rm -rf %s' % cp)
+    # meta.json may be written by parallel runs of *other* seeds only (one file per seed)
+    json.dump(meta, open(os.path.join(dst, 'meta.json'), 'w'), indent=1)
+
+
+def record(meta, c, rc, out, t0, tier='quick'):
+    lines = [l for l in out.split('\n') if re.search(r'VIOLATION|tier=|ENCODER|UNKNOWN|GAP|VACUITY|UNAVAILABLE', l)]
+    viol = [l for l in lines if l.startswith('VIOLATION')]
+    claims = sorted(set(re.findall(r'obligation=(\S+) claim=(.*?) site=(\S+)', out)))
+    key = c if tier == 'quick' else '%s/%s' % (c, tier)
+    meta['checks_run'][key] = {'exit': rc, 'violations': len(viol), 'detected': rc == 1 and len(viol) > 0,
+                               'claims_violated': [{'obligation': o, 'claim': cl, 'site': s} for o, cl, s in claims][:12],
+                               'other_lines': [l[:200] for l in lines if not l.startswith('VIOLATION')][:8], 'wall_s': round(time.time() - t0)}
+    print(c, 'exit', rc, 'violations', len(viol), [s for _, _, s in claims][:6])
+
+
 def run(sid, checks):
     dst = os.path.join(VERIF, 'seeded', sid)
     meta = json.load(open(os.path.join(dst, 'meta.json')))
@@ -102,3 +137,5 @@ if __name__ == '__main__':
         sys.exit(0 if ok else 1)
     elif sys.argv[1] == 'run':
         run(sys.argv[2], sys.argv[3:])
+    elif sys.argv[1] == 'runcopy':
+        run_copy(sys.argv[2], sys.argv[3:])
